@@ -190,7 +190,7 @@ def gen_cli_case(rnd, i):
                 d[2] = rnd.choice(["ЖУК", "игра", "Тест 1", "Ёж", "Привет", "абвгдежз", "абвгдежзи"])     # 3..9 letters = 6..18 bytes in utf-8
     incdir = rnd.choice([None, None, None, "lib", "lib/deep"]) if directives and not any((d[1] or "").startswith("../") or "/../" in (d[1] or "") for d in directives) else None
     return {"charset": charset, "incdir": incdir, "stale": rnd.random() < 0.3, "dcase": rnd.choice([0, 0, 0xFFFF, rnd.randrange(1 << 16)]), "kind": "cli", "base": base, "image": img.hex(), "src": stem + suffix, "srcdir": srcdir, "directives": directives,
-            "opts": opts, "where": rnd.choice(["top", "bottom", "middle"]), "quote": rnd.choice("\"'/"), "second": second, "mirror": rnd.random() < 0.7, "rerun": rnd.random() < 0.3}
+            "opts": opts, "where": rnd.choice(["top", "bottom", "middle"]), "quote": rnd.choice("\"'/"), "second": second, "mirror": rnd.random() < 0.7, "rerun": rnd.random() < 0.3, "symlink": rnd.random() < 0.2}
 
 
 def case_signature(case):
@@ -346,8 +346,18 @@ def run_case(case, cnt=None):
             k = len(body) // 2
             lines = body[:k] + dlines + body[k:]
         src_path = os.path.join(srcdir, case["src"])
-        with open(src_path, "w", encoding="utf-8") as f:
-            f.write("\n".join(lines) + "\n")
+        if case.get("symlink"):
+            # the source named on the command line is a symbolic link to a file kept elsewhere: paths and default names go by the name given
+            store = os.path.join(root, "store")
+            os.makedirs(store, exist_ok=True)
+            real = os.path.join(store, "kept-" + case["src"])
+            with open(real, "w", encoding="utf-8") as f:
+                f.write("\n".join(lines) + "\n")
+            os.symlink(real, src_path)
+            cnt["symlinked_sources"] = cnt.get("symlinked_sources", 0) + 1
+        else:
+            with open(src_path, "w", encoding="utf-8") as f:
+                f.write("\n".join(lines) + "\n")
         argv = [os.path.join(case["srcdir"], case["src"])]
         if case.get("second"):
             second = os.path.join(cwd, case["second"])
